@@ -77,3 +77,39 @@ func VerifC23DisconnectV3() {
 	vAssertWellFormed(w, ver, 0)
 	vReach("end")
 }
+
+// VerifC23ProblemInfo: a client that sent Request Problem Information = 0 gets no Reason String and no User
+// Property on anything but CONNACK, DISCONNECT (and PUBLISH), whatever else its CONNECT said (Maximum Packet
+// Size or not), for exchanges the broker answers with reason codes >= 0x80.
+func VerifC23ProblemInfo() {
+	s, _ := vNewServer(nil)
+	o := vConnOpts{ver: 5, id: "c1", clean: true, keepalive: 60, noProblem: true}
+	if vBool() {
+		o.mps = uint32(vRange(40, 400))
+	}
+	c := vDial(s, o)
+	switch vChoose(4) {
+	case 0: // QoS 1 publish to a topic clients may not publish to: PUBACK 0x90 or similar
+		vSend(c, vPublishBytes("$SYS/x", 1, 1, 7, false, 5))
+	case 1: // QoS 2 publish to it: PUBREC >= 0x80
+		vSend(c, vPublishBytes("$SYS/x", 1, 2, 7, false, 5))
+	case 2: // PUBREC for an unknown id: PUBREL 0x92
+		vSend(c, []byte{0x50, 2, 0, 9})
+	case 3: // SUBSCRIBE to an invalid filter: SUBACK 0x8F
+		vSend(c, vSubscribeBytes(3, "a/#/b", 1, 5))
+	}
+	w := vParseWire(vConnWritten(c), 5)
+	vAssert("transcript-parses", w.Trailing == 0)
+	answered := false
+	for _, p := range w.Pkts {
+		if p.Type == packets.Connack || p.Type == packets.Disconnect || p.Type == packets.Publish {
+			continue
+		}
+		answered = true
+		for _, id := range p.PropIDs {
+			vAssert("no-reason-string-or-user-property-when-problem-information-was-declined", id != 0x1F && id != 0x26)
+		}
+	}
+	vAssert("the-exchange-was-answered", answered)
+	vReach("end")
+}
